@@ -365,6 +365,10 @@ def binop(I, op, a, b, inplace=False):
         if isinstance(a, list) or isinstance(b, list) or isinstance(a, tuple) or isinstance(b, tuple):
             raise PyExc("TypeError", ("can only concatenate like sequences",))
     if op == "*":
+        if isinstance(a, list) and isinstance(b, Sym) or isinstance(b, list) and isinstance(a, Sym):
+            from .models.glist import GList
+            lst, n = (a, b) if isinstance(a, list) else (b, a)
+            return GList(lst).py_binop(I, "*", n, False)
         if isinstance(a, (list, tuple, str)) and isinstance(b, int):
             return a * b
         if isinstance(b, (list, tuple, str)) and isinstance(a, int):
